@@ -1,12 +1,15 @@
 import json
 import vf
 
-IMPORTS = ["From ZV Require Import Lib.Base Model.Tenant."]
+IMPORTS = ["From ZV Require Import Lib.Base Model.Tenant Model.TenantLoop."]
 RULE = ("shard level (package index): 1-5 repositories (tenant id 1..3 or none, optional tombstone, file tombstones, 0-2 "
         "sub-repositories, repo id possibly 0; names unique per tenant only: 40 % of the repositories take the name of a repository of another "
         "tenant in the same shard) in one simple shard or one compound shard built by index.Merge; 8 cases per shard: "
-        "context in {system, none, tenant1..4 (tenant4 owns nothing)} x random query of depth <= 2 over {content/file substring, RepoSet, "
-        "RepoIDs, Repo, RepoRegexp, Meta, BranchesRepos, Const, And, Or, Not} x Search options x List field; 7/8 strict, 1/8 "
+        "45 % of the compound shards are DENSE (3-5 documents per repository, every document contains a common word on 1-2 lines, 25 % tombstoned "
+        "repositories, file tombstones on first documents: an accessible repository with many matches is directly followed by a foreign / tombstoned one whose first document matches); "
+        "context in {system, none, tenant1..4 (tenant4 owns nothing)} x random query of depth <= 2 (on dense shards half of them built around the common word) over {content/file substring, RepoSet, "
+        "RepoIDs, Repo, RepoRegexp, Meta, BranchesRepos, Const, And, Or, Not} x Search options x List field; every case also runs the search with "
+        "ShardRepoMaxMatchCount in {0,1,2} x ShardMaxMatchCount in {default,1,2,3,5} (compared with the loop model Model/TenantLoop.v; match counts per file taken from an unlimited system-context search); 7/8 strict, 1/8 "
         "non-strict. sharded level (package search): 2-6 repositories (names unique per tenant only, as above; same-named repositories carry the "
         "same URL templates there) over simple (possibly split) and compound shards loaded into "
         "the real shardedSearcher wrapped by typeRepoSearcher; queries incl. type:repo; Search aggregate and List (names, ReposMap ids, Stats.Documents) compared with the model, "
@@ -14,6 +17,8 @@ RULE = ("shard level (package index): 1-5 repositories (tenant id 1..3 or none, 
         "and the search reaches the document loop / returns files.")
 TB = ["correspondence harnesses harness/overlay/index/zz_verif_c23_test.go, harness/overlay/search/zz_verif_c23s_test.go, "
       "harness/overlay/search/zz_verif_shardgen_test.go (generators, brute-force reference evaluator of the query, canonicalisation, leak oracle)",
+      "loop model (Model/TenantLoop.v): the match-tree iterator mt.nextDoc() and ctx cancellation are universally quantified in the no-leak theorem; the correspondence "
+      "instantiates them with 'never jumps' / 'never cancelled' (a jumping iterator only skips non-matching documents: C01's subject) and takes the per-file match counts from the implementation",
       "the query is abstract in the model: scan bit (Stats.ShardsScanned), per-document match bits (brute-force reference evaluator) "
       "and d.simplify's outcome are inputs of the model",
       "strings are opaque identifiers; SubRepoMap iteration order modelled as list order (generated names are unique)",
@@ -56,7 +61,7 @@ def run(ctx):
 
     levels = [
         dict(name="shard", pkg="index", run="TestVerifC23$", files=["index/zz_verif_c23_test.go"],
-             n=ctx.n(200, 6000), case_type="c23case", fn="c23_mismatches", out="out-shard.jsonl"),
+             n=ctx.n(200, 6000), case_type="c23l_case", fn="c23l_mismatches", out="out-shard.jsonl"),
         dict(name="sharded", pkg="search", run="TestVerifC23S$",
              files=["search/zz_verif_c23s_test.go", "search/zz_verif_shardgen_test.go"],
              n=ctx.n(72, 2500), case_type="c23scase", fn="c23s_mismatches", out="out-sharded.jsonl"),
